@@ -33,7 +33,7 @@ PROPS = {
     "C01": {
         "level": "exploration",
         "parts": [{"engine": "sched", "profile": "c01", "weight": 4}, {"engine": "integ", "profile": "c06", "weight": 1}, {"engine": "fault", "profile": "c13", "weight": 1}],
-        "rule": "worlds: every DAG shape on 1..4 stages by index (x declaration order, outcomes, allow_failure, conditions, nested pipeline drawn per world), random DAGs beyond (a nested pipeline reuses the stage names of the pipeline around it in a third of the cases; every 16th world has 8..12 stages that each nest a pipeline, every 16th one pipeline nested by two stages with likely failures inside); each world under 4 seeded schedules (which parked stage goroutine / Run call proceeds next, passes in between). distinct = canonical event-log hash (timestamps removed, events of one quiescence sorted); non-trivial = at least two stage tasks in flight together at some point. INTEG part (real TaskRunner over simulated processes, the C06 pipeline worlds): no command of a stage starts before every command of each dependency has ended; also in the C13 timeout worlds (dependant of a task whose command overruns its timeout and ignores the interrupt until killed)",
+        "rule": "worlds: every DAG shape on 1..4 stages by index (x declaration order, outcomes, allow_failure, conditions, nested pipeline drawn per world), random DAGs beyond (a nested pipeline reuses the stage names of the pipeline around it in a third of the cases; every 16th world has 8..12 stages that each nest a pipeline, every 16th one pipeline nested by two stages with likely failures inside); each world under 4 seeded schedules (which parked stage goroutine / Run call proceeds next, passes in between; in a third of the worlds a stage goroutine whose task just returned may be held before one of its next 12 statements - e.g. between its two status stores - while scheduling passes go on). distinct = canonical event-log hash (timestamps removed, events of one quiescence sorted); non-trivial = at least two stage tasks in flight together at some point. INTEG part (real TaskRunner over simulated processes, the C06 pipeline worlds): no command of a stage starts before every command of each dependency has ended; also in the C13 timeout worlds (dependant of a task whose command overruns its timeout and ignores the interrupt until killed)",
         "assumptions": _SCHED_ASSUME,
     },
     "C02": {
@@ -52,7 +52,7 @@ PROPS = {
     "C04": {
         "level": "exploration",
         "parts": [{"engine": "sched", "profile": "c04", "weight": 2}, {"engine": "fault", "profile": "c04i", "weight": 1}],
-        "rule": "barrier workload on the C01 worlds: no task is completed until every stage the reference model calls eligible is in flight (parked at goroutine start or inside Run); checked whenever the eligible set may have changed, nested pipelines included; bound 2.5 s simulated = 25000 polling passes. INTEG part (real TaskRunner, executor, interpreter): pipelines of parallel / chained stages, half of them with several stages sharing one task; every goroutine that merely waits to be scheduled is let go, then every stage whose dependencies are satisfied must have a simulated process in flight before any process is completed. distinct = canonical event-log hash; non-trivial = >=2 tasks in flight together",
+        "rule": "barrier workload on the C01 worlds: no task is completed until every stage the reference model calls eligible is in flight (parked at goroutine start or inside Run); checked whenever the eligible set may have changed, nested pipelines included; bound 2.5 s simulated = 25000 polling passes. INTEG part (real TaskRunner, executor, interpreter): pipelines of parallel / chained stages, half of them with several stages sharing one task, many with tasks of different stages sharing an execution context with before / after hooks (no up commands), every command first printing progress text (half of it without a line end); every goroutine that merely waits to be scheduled is let go, then every stage whose dependencies are satisfied must have a simulated process in flight before any process is completed. distinct = canonical event-log hash; non-trivial = >=2 tasks in flight together",
         "assumptions": _SCHED_ASSUME,
     },
 }
@@ -69,57 +69,57 @@ PROPS.update({
     "C06": {
         "level": "exploration",
         "parts": [{"engine": "integ", "profile": "c06", "weight": 3}, {"engine": "fault", "profile": "c06s", "weight": 1}, {"engine": "watch", "profile": "c20", "weight": 1}],
-        "rule": "worlds: 1..3 (thorough 5) tasks with <=3 commands x <=3 variations, before/after hooks, condition, allow_failure, run directly (parallel or sequential drivers) or as stages of a seeded DAG; exit status of every exec drawn per world (0 mostly, else 1..255, command-not-found), durations seeded. Oracle: per-task exec history == reference sequencing model, no two execs of one task overlap. Second part: one task shared by 2..4 stages (config-loader built), each stage with its own injected condition / hook / command results - every stage's execution must follow the model fed with that stage's results (a second use must re-evaluate everything). Third part (WATCH engine): the watcher re-runs one task (1 command, 1..2 after commands) for every event, each run's command exit status seeded: every run executes command then - iff it succeeded - the after commands, whatever earlier runs of the task did. distinct = canonical event-log hash; non-trivial = >=2 simulated processes alive together or >=1 non-zero exit injected",
+        "rule": "worlds: 1..3 (thorough 5) tasks with <=3 commands x <=3 variations (one of them possibly the empty variation `{}`), before/after hooks, condition, allow_failure, run directly (parallel or sequential drivers) or as stages of a seeded DAG; exit status of every exec drawn per world (0 mostly, else 1..255, command-not-found), durations seeded; in 2% of the worlds one command prints 1.1..1.5 MiB. Oracle: per-task exec history == reference sequencing model, no two execs of one task overlap. Second part: one task shared by 2..4 stages (config-loader built), each stage with its own injected condition / hook / command results - every stage's execution must follow the model fed with that stage's results (a second use must re-evaluate everything). Third part (WATCH engine): the watcher re-runs one task (1 command, 1..2 after commands) for every event, each run's command exit status seeded: every run executes command then - iff it succeeded - the after commands, whatever earlier runs of the task did. distinct = canonical event-log hash; non-trivial = >=2 simulated processes alive together or >=1 non-zero exit injected",
         "assumptions": _INTEG_ASSUME,
     },
     "C07": {
         "level": "exploration",
         "real_binary_smoke": True,
         "parts": [{"engine": "integ", "profile": "c07", "weight": 4}, {"engine": "cli", "profile": "cli", "weight": 2}, {"engine": "fault", "profile": "c13", "weight": 1}],
-        "rule": "indices 0..1535: every exit status 0..255 at each of 3 command positions, with and without allow_failure, directly or as a stage; beyond: random C06-style worlds with more failures. Oracle: Task.Errored/ExitCode/Skipped, error returned by Run/Schedule and stage statuses == model. CLI part: generated configuration file + argv of 1..4 targets (tasks and pipelines in any order, root action or `run`, optional `-- args` containing a task name) through the in-process command line: targets execute in argv order without overlap, nothing of a later target starts after the first failing one, error returned iff a target failed, unrequested tasks never run. distinct = canonical event-log hash; non-trivial = >=2 processes alive together or >=1 non-zero exit",
+        "rule": "indices 0..1535: every exit status 0..255 at each of 3 command positions, with and without allow_failure, directly or as a stage; beyond: random C06-style worlds with more failures, 15% of them with an execution context (half of those with a failing `up` command: none of its tasks can run, each must report the error - the first user and the later ones alike). Third part: the C13 timeout worlds (a task whose command was killed by its timeout failed: reporting success is a C07 violation too). Oracle: Task.Errored/ExitCode/Skipped, error returned by Run/Schedule and stage statuses == model. CLI part: generated configuration file + argv of 1..4 targets (tasks and pipelines in any order, root action or `run`, optional `-- args` containing a task name) through the in-process command line: targets execute in argv order without overlap, nothing of a later target starts after the first failing one, error returned iff a target failed, unrequested tasks never run. distinct = canonical event-log hash; non-trivial = >=2 processes alive together or >=1 non-zero exit",
         "assumptions": _INTEG_ASSUME + ["CLI part: entered at makeApp().Run(argv) in-process; main()'s error -> exit status 1 mapping (5 lines) is not executed"],
     },
     "C11": {
         "level": "exploration",
         "parts": [{"engine": "integ", "profile": "c11", "weight": 3}, {"engine": "fault", "profile": "c06s", "weight": 1}],
-        "rule": "producers with several commands/variations writing seeded byte strings (empty, multi-line, CRLF, unicode, quoting hazards, up to 64 KiB) in seeded chunkings, some stderr chunks interleaved, 12% of the tasks declared interactive; task names over a printable-ASCII alphabet (mangled names kept distinct), with/without exportAs; consumers at seeded DAG positions; {{.Output}} chaining with shell-safe words. Oracle: Task.Output() byte-exact; every exec of a direct dependant sees <NAME>_OUTPUT / exportAs == producer stdout; chained command argv == previous command's output. distinct = canonical event-log hash; non-trivial as C06",
+        "rule": "producers with several commands/variations writing seeded byte strings (empty, multi-line, CRLF, unicode, quoting hazards, up to 64 KiB) in seeded chunkings, some stderr chunks interleaved, 12% of the tasks declared interactive; task names over a printable-ASCII alphabet (mangled names kept distinct), with/without exportAs; consumers at seeded DAG positions; {{.Output}} chaining with shell-safe words. Second part (c06s worlds: one task shared by 2..4 stages, built by the config loader, every stage's execution printing its own lines): each stage's captured output == what its own execution wrote. Oracle: Task.Output() byte-exact; every exec of a direct dependant sees <NAME>_OUTPUT / exportAs == producer stdout; chained command argv == previous command's output. distinct = canonical event-log hash; non-trivial as C06",
         "assumptions": _INTEG_ASSUME,
     },
     "C12": {
         "level": "fault_enumeration",
         "parts": [{"engine": "fault", "profile": "c12", "weight": 3}, {"engine": "sched", "profile": "c12s", "weight": 1}, {"engine": "cli", "profile": "cli12", "weight": 1}],
-        "rule": "for each sampled world (1..4 parallel tasks + 0..3 waiting stages, hooks, conditions, contexts, processes that die at once or ignore the interrupt until killed) and its base schedule, Cancel is injected at EVERY controller step index 0..23 (index mod 24; beyond the end of the run = after everything returned), via TaskRunner.Cancel or Scheduler.Cancel, optionally a second Cancel, or from a stage-condition error (also in the middle of the run: a nested pipeline whose stage condition cannot be evaluated is started while 1..3 stages outside and 0..2 inside it have long commands in flight - every sixth world); SCHED part: same enumeration (16 positions) against the stub Runner; CLI part: abort() - what the signal handler calls - at every step of command-line runs of 1..4 targets (the application's own cancel goroutines drive TaskRunner.Cancel and Scheduler.Cancel; when and in which order they act after abort() is a seeded choice): the invocation returns, running commands are interrupted, an interrupted invocation returns an error. distinct = canonical event-log hash; all runs are non-trivial (a fault fires in each)",
+        "rule": "for each sampled world (1..4 parallel tasks + 0..3 waiting stages, hooks, conditions, contexts (an `up` command fails with p=1/8: its tasks fail before running anything and a later Cancel must still return), processes that die at once or ignore the interrupt until killed) and its base schedule, Cancel is injected at EVERY controller step index 0..23 (index mod 24; beyond the end of the run = after everything returned), via TaskRunner.Cancel or Scheduler.Cancel, optionally a second Cancel, or from a stage-condition error (also in the middle of the run: a nested pipeline whose stage condition cannot be evaluated is started while 1..3 stages outside and 0..2 inside it have long commands in flight - every sixth world); SCHED part: same enumeration (16 positions) against the stub Runner; CLI part: abort() - what the signal handler calls - at every step of command-line runs of 1..4 targets (the application's own cancel goroutines drive TaskRunner.Cancel and Scheduler.Cancel; when and in which order they act after abort() is a seeded choice): the invocation returns, running commands are interrupted, an interrupted invocation returns an error. distinct = canonical event-log hash; all runs are non-trivial (a fault fires in each)",
         "assumptions": _INTEG_ASSUME + ["condition and context service commands run under context.Background() by design and are exempt from 'terminates the commands that are running'"],
     },
     "C08": {
         "level": "exploration",
         "parts": [{"engine": "fault", "profile": "c08", "weight": 1}],
-        "rule": "worlds: a configuration file (written per run, loaded by the real config loader) with one shared task (1..3 env names, 1..3 variables used as argv, optional dir) and 2..4 (thorough 6) stages overriding random subsets of env/variables/dir, arranged parallel / chained / mixed, optionally a second pipeline and a direct run of the task in the same process, drivers run in sequence; in a third of the worlds the task has before/after hooks (also using the shell idiom NAME=${NAME:-x}) that must see the stage's values too. Schedule space: order in which stage goroutines parked at goroutine start and at Run entry proceed, and process completion order. Oracle at every exec: each namespaced env name, variable (argv) and dir == this stage's override, else the task's own value; a leaking value is attributed to the stage it came from. distinct = canonical event-log hash; all runs non-trivial (every world has >=2 users of the task)",
+        "rule": "worlds: a configuration file (written per run, loaded by the real config loader) with one shared task (1..3 env names, 1..3 variables used as argv, optional dir - literal or a template over a variable the stages override) and 2..4 (thorough 6) stages overriding random subsets of env/variables/dir, arranged parallel / chained / mixed, optionally a second pipeline and a direct run of the task in the same process, drivers run in sequence; in a third of the worlds the task has before/after hooks (also using the shell idiom NAME=${NAME:-x}) that must see the stage's values too. Schedule space: order in which stage goroutines parked at goroutine start and at Run entry proceed, and process completion order. Oracle at every exec: each namespaced env name, variable (argv) and dir == this stage's override, else the task's own value; a leaking value is attributed to the stage it came from. distinct = canonical event-log hash; all runs non-trivial (every world has >=2 users of the task)",
         "assumptions": _INTEG_ASSUME + ["names live in a namespace no other level defines, so no other layering rule is involved", "execs are attributed to stages by goroutine id"],
     },
     "C19": {
         "level": "exploration",
         "cross_outcome": True,
         "parts": [{"engine": "fault", "profile": "c19", "weight": 1}],
-        "rule": "worlds: 1..5 (thorough 8) tasks, each one simulated process writing a seeded stream (lines of 0..10000 bytes, LF / CRLF / lone CR, well-formed CSI sequences, unicode, digits and brackets next to sequences, unterminated tail, also ending inside an escape introducer that never completes) cut into write calls at seeded points (also inside CRLF, a CSI sequence or a rune), a share of chunks on stderr; chunk writes of different tasks interleaved one at a time by the controller; task outcomes success / failure / skipped / failing before-hook; every world is run under raw, prefixed and cockpit (index mod 3); a third of the worlds preempt goroutines at function entries of taskctl and of the spinner (cockpit: 40% of releases, within 80 entries). Oracles: the run returns (a lock cycle between cockpit and spinner is a deadlock: rule=deadlock, with the waiting goroutines' call chains); raw sink == chunks in delivery order; prefixed: every sink write is one whole line carrying the name of the task whose chunk is being delivered, per-task payload == stream after removing terminators and CSI sequences; result fields equal across the three formats; no crash. distinct = canonical event-log hash; all runs non-trivial",
+        "rule": "worlds: 1..5 (thorough 8) tasks, each one simulated process writing a seeded stream (lines of 0..10000 bytes, LF / CRLF / lone CR, well-formed CSI sequences, unicode, digits and brackets next to sequences, unterminated tail, also ending inside an escape introducer that never completes) cut into write calls at seeded points (also inside CRLF, a CSI sequence or a rune), a share of chunks on stderr; chunk writes of different tasks interleaved one at a time by the controller; task outcomes success / failure / skipped / failing before-hook; one task in eight is interactive (it owns the terminal: its bytes pass unchanged under every format - and only its); every world is run under raw, prefixed and cockpit (index mod 3); a third of the worlds preempt goroutines at function entries of taskctl and of the spinner (cockpit: 40% of releases, within 80 entries). Oracles: the run returns (a lock cycle between cockpit and spinner is a deadlock: rule=deadlock, with the waiting goroutines' call chains); raw sink == chunks in delivery order; prefixed: every sink write is one whole line carrying the name of the task whose chunk is being delivered, per-task payload == stream after removing terminators and CSI sequences; result fields equal across the three formats; no crash. distinct = canonical event-log hash; all runs non-trivial",
         "assumptions": _INTEG_ASSUME + ["hooks print nothing in these worlds (their output bypasses the decorator by design)", "briandowns/spinner (cockpit format) takes part in the simulation with its lock rewritten and its function entries as preemption points; its goroutine runs when the fake clock reaches its next frame; data races on its unsynchronised fields are out of reach"],
     },
     "C20": {
         "level": "exploration",
         "parts": [{"engine": "watch", "profile": "c20", "weight": 1}],
-        "rule": "worlds: a real temporary tree (<=4 directories on 3 levels, <=10 files), 1..3 include and 0..2 exclude patterns from the grammar (literal, *, ?, ** as a whole segment), a subset of the five event names (or none = all), built by the real watch.NewWatcher; a history of 1..4 (thorough 6) injected fsnotify events (create/write/remove/rename/chmod, also combined and zero ops as noise) on observed paths or children of observed directories, a quarter of them arriving while the previously triggered run is still executing; fake 1 s poll. Oracles: selected path set == reference matcher (set-up invariant, pure part); per event: the task ran exactly once more with EventName/EventPath of that event iff its type is subscribed; every event is taken from the channel (keeps serving); initial run once; in a third of the runs a second watcher (same patterns, own task) is started on the same TaskRunner after the first was closed: it runs its task once and serves a subscribed event. distinct = canonical event-log hash; non-trivial = world with >=1 observed path and >=1 event",
-        "assumptions": ["inotify and fsnotify's reader are not exercised: events are injected into the channel the watcher polls", "events are only injected for observed paths (the kernel would not deliver others)", "combined / zero ops are injected but not constrained (the statement does not say which type they are)", "sampling, not proof"],
+        "rule": "worlds: a real temporary tree (<=4 directories on 3 levels, <=10 files), 1..3 include and 0..2 exclude patterns from the grammar (literal, *, ?, ** as a whole segment), a subset of the five event names (or none = all), built by the real watch.NewWatcher; a history of 1..4 (thorough 6) injected fsnotify events (create/write/remove/rename/chmod, also combined and zero ops as noise) on observed paths or children of observed directories, a quarter of them arriving while the previously triggered run is still executing; fake 1 s poll. a third of the worlds give the task a timeout that some runs exceed (a failed run like any other). Oracles: selected path set == reference matcher (set-up invariant, pure part); number of watches the real inotify instance behind the watcher holds (read from /proc/self/fdinfo) == number of selected paths, and it does not grow when a create event arrives for an unselected file of an observed directory; per event: the task ran exactly once more with EventName/EventPath of that event iff its type is subscribed; every event is taken from the channel (keeps serving); initial run once; in a third of the runs a second watcher (same patterns, own task) is started on the same TaskRunner after the first was closed: it runs its task once and serves a subscribed event. distinct = canonical event-log hash; non-trivial = world with >=1 observed path and >=1 event",
+        "assumptions": ["event delivery by inotify and fsnotify's reader are not exercised: events are injected into the channel the watcher polls; registration with the kernel IS observed (real inotify_add_watch calls, counted through /proc/self/fdinfo)", "events are only injected for observed paths (the kernel would not deliver others)", "combined / zero ops are injected but not constrained (the statement does not say which type they are)", "sampling, not proof"],
     },
     "C14": {
         "level": "exploration",
         "parts": [{"engine": "fault", "profile": "c14", "weight": 3}, {"engine": "cli", "profile": "cli", "weight": 2}, {"engine": "fault", "profile": "c12", "weight": 1}, {"engine": "fault", "profile": "c08", "weight": 1}],
-        "rule": "worlds: 1..3 contexts with 0..2 up/down/before/after service commands (up fails with p=0.1, down with p=0.2 per command), 1..5 (thorough 8) tasks spread over them with/without before/after/condition/allow_failure and failing commands, started simultaneously, one after another, or as parallel/chained stages; Finish called once or twice; CLI part: the CLI worlds of C07 with 0..2 contexts (down exactly once at shutdown, after all tasks of all targets, for used contexts, whether the targets succeeded or failed). Schedule space: which goroutine parked at Run entry / Up entry / inside a command proceeds next, including releasing further tasks into Up() while `up` is still running (limbo fast-forward). distinct = canonical event-log hash; all runs non-trivial",
+        "rule": "worlds: 1..3 contexts with 0..2 up/down/before/after service commands (up fails with p=0.1, down with p=0.2 per command), 1..5 (thorough 8) tasks spread over them with/without before/after/condition/allow_failure and failing commands, started simultaneously, one after another, or as parallel/chained stages; Finish called once or twice; Under a cancellation (c12 part) the pairing is still demanded: an execution whose before hook ran gets its after hook. Fourth part (c08 worlds, config-loader built): the shared task's context must surround every stage's execution of it, whatever the stage overrides (dir, env, variables). CLI part: the CLI worlds of C07 with 0..2 contexts (down exactly once at shutdown, after all tasks of all targets, for used contexts, whether the targets succeeded or failed). Schedule space: which goroutine parked at Run entry / Up entry / inside a command proceeds next, including releasing further tasks into Up() while `up` is still running (limbo fast-forward). distinct = canonical event-log hash; all runs non-trivial",
         "assumptions": _INTEG_ASSUME + ["a skipped task may have zero or one before/after hook block; a context whose up failed may or may not get its down commands (statement silent)", "context hook commands are attributed to task executions by goroutine id"],
     },
     "C13": {
         "level": "fault_enumeration",
         "parts": [{"engine": "fault", "profile": "c13", "weight": 1}],
-        "rule": "for each sampled task (timeout 100ms..1s, <=3 commands, variations, before/after hooks, allow_failure on/off) the overrunning command is placed at EVERY position (index mod 64 -> position x shape) with shapes: finishes 1 ms before the deadline, stalls and dies on interrupt, ignores the interrupt until killed (1 ms..2 s), overruns by a margin, shell while-loop around the command, none. Fake clock: deadlines compared exactly. distinct = canonical event-log hash; all runs non-trivial",
+        "rule": "for each sampled task (timeout 100ms..1s, <=3 commands, variations, before/after hooks, allow_failure on/off) the overrunning command is placed at EVERY position (index mod 64 -> position x shape) with shapes: finishes 1 ms before the deadline, stalls and dies on interrupt, ignores the interrupt until killed (1 ms..2 s), overruns by a margin, shell while-loop around the command, none. Fake clock: deadlines compared exactly. As a stage of a pipeline the timed-out task's stage must end Error (Done with stage allow_failure) - not Canceled - and Schedule must report the failure. distinct = canonical event-log hash; all runs non-trivial",
         "assumptions": _INTEG_ASSUME,
     },
 })
